@@ -14,6 +14,8 @@
 (*           internal only: never, any (unconstrained), int / sint (integer  *)
 (*           literal / literal that must be signed), float (float literal),  *)
 (*           [k|->"anon",fs|-><<[n,t]..>>] (record literal), [k|->"verdict"] *)
+(*           A type in a program is the WRITTEN type: see "name resolution"  *)
+(*           (a declared record / enum may carry the name of a built-in).    *)
 (*   decls   record(n,fs) enum(n,vs) const(n,t,e) fn(n,ps,ret,body)          *)
 (*           filtermap(n,ps,body)                                            *)
 (*   nodes   int float bool str unit var neg not bin if blk let assign       *)
@@ -87,6 +89,70 @@ WfTypeIn(P, t, tps) ==
                           /\ \A x \in DOMAIN t.as : WfTypeIn(P, t.as[x], tps)
     [] OTHER           -> FALSE
 WfType(P, t) == WfTypeIn(P, t, {})
+
+(* ------------------------------------------------------------ name resolution *)
+(* A script may declare a record or an enum under ANY name, also the name of a  *)
+(* built-in type (Option, Verdict, Result, List, String, bool, u32, ...): the   *)
+(* declaration shadows the built-in inside the module (scope.rs: a path is      *)
+(* looked up from the innermost scope outwards; the built-ins live in the       *)
+(* global scope; cf. tests/scripts/type_errors/overriding_builtin.roto).  Such a *)
+(* NAMESAKE is a type of its own: no rule that mentions a built-in applies to   *)
+(* it.  What stays the built-in whatever the script declares:                    *)
+(*   - the sugar `T?` (evaluate_type_expr: TypeExpr::Option => Type::option),    *)
+(*   - the bare constructors Some(..) / None (the prelude imports the variants   *)
+(*     of the built-in Option; a path `Option.Some` is resolved by name and      *)
+(*     therefore means the script's Option when there is one),                   *)
+(*   - the types of literals, of operator results, of `accept` / `reject` and   *)
+(*     of a filtermap, the iterated type of `for`, the conditions of if / while. *)
+(* In a program AST a type is WRITTEN: T("String"), Named("String") are both    *)
+(* the name `String`; ListOf(a) is `List[a]`; Opt(a) is `a?`.  Res gives the     *)
+(* type the written form denotes in program P; Norm resolves every annotation of *)
+(* a program.  The judgement below works on resolved programs only.              *)
+BuiltinNames == (PrimK \ {"unit"}) \cup {"Option", "List", "Verdict", "Result"}
+TyDeclared(P, n) == HasDecl(P, n) /\ DeclOf(P, n).k \in {"record", "enum"}
+IllFormed == T("illformed")        \* wrong number of type arguments for the declared type: WfType rejects it
+RECURSIVE Res(_, _)
+Res(P, t) ==
+  CASE t.k \in PrimK \ {"unit"} ->
+         IF TyDeclared(P, t.k) THEN (IF TParams(DeclOf(P, t.k)) = <<>> THEN Named(t.k) ELSE IllFormed) ELSE t
+    [] t.k = "named" -> IF ~HasDecl(P, t.n) /\ t.n \in PrimK \ {"unit"} THEN T(t.n) ELSE t
+    [] t.k = "opt"   -> Opt(Res(P, t.a))
+    [] t.k = "list"  -> IF TyDeclared(P, "List")
+                        THEN (IF Len(TParams(DeclOf(P, "List"))) = 1
+                              THEN [k |-> "gen", n |-> "List", as |-> <<Res(P, t.a)>>] ELSE IllFormed)
+                        ELSE ListOf(Res(P, t.a))
+    [] t.k = "gen"   -> [k |-> "gen", n |-> t.n, as |-> [x \in DOMAIN t.as |-> Res(P, t.as[x])]]
+    [] OTHER         -> t
+
+NormDecl(P, d) ==
+  CASE d.k = "record" -> [d EXCEPT !.fs = [x \in DOMAIN d.fs |-> [n |-> d.fs[x].n, t |-> Res(P, d.fs[x].t)]]]
+    [] d.k = "enum"   -> [d EXCEPT !.vs = [x \in DOMAIN d.vs |->
+                              [n |-> d.vs[x].n, ts |-> [y \in DOMAIN d.vs[x].ts |-> Res(P, d.vs[x].ts[y])]]]]
+    [] d.k = "const"  -> [d EXCEPT !.t = Res(P, d.t)]
+    [] d.k = "fn"     -> [d EXCEPT !.ps = [x \in DOMAIN d.ps |-> [n |-> d.ps[x].n, t |-> Res(P, d.ps[x].t)]],
+                                   !.ret = Res(P, d.ret)]
+    [] d.k = "filtermap" -> [d EXCEPT !.ps = [x \in DOMAIN d.ps |-> [n |-> d.ps[x].n, t |-> Res(P, d.ps[x].t)]]]
+    [] OTHER          -> d
+NormNode(P, n) == IF n.k = "let" /\ n.t # <<>> THEN [n EXCEPT !.t = <<Res(P, n.t[1])>>] ELSE n
+(* nothing to resolve unless the script declares a type under a built-in name or *)
+(* writes Named(<primitive>) (the same written form as T(<primitive>))           *)
+NeedsNorm(P) ==
+  \/ \E x \in DOMAIN P.decls : P.decls[x].k \in {"record", "enum"} /\ P.decls[x].n \in BuiltinNames
+  \/ \E x \in DOMAIN P.decls :
+        LET d == P.decls[x]
+            IsPN(t) == t.k = "named" /\ t.n \in PrimK
+        IN CASE d.k = "record" -> \E y \in DOMAIN d.fs : IsPN(d.fs[y].t)
+             [] d.k = "enum"   -> \E y \in DOMAIN d.vs : \E z \in DOMAIN d.vs[y].ts : IsPN(d.vs[y].ts[z])
+             [] d.k = "const"  -> IsPN(d.t)
+             [] d.k = "fn"     -> IsPN(d.ret) \/ \E y \in DOMAIN d.ps : IsPN(d.ps[y].t)
+             [] d.k = "filtermap" -> \E y \in DOMAIN d.ps : IsPN(d.ps[y].t)
+             [] OTHER -> FALSE
+  \/ \E x \in DOMAIN P.nodes : P.nodes[x].k = "let" /\ P.nodes[x].t # <<>>
+                                  /\ P.nodes[x].t[1].k = "named" /\ P.nodes[x].t[1].n \in PrimK
+Norm(P) ==
+  IF ~NeedsNorm(P) THEN P
+  ELSE [P EXCEPT !.decls = [x \in DOMAIN P.decls |-> NormDecl(P, P.decls[x])],
+                 !.nodes = [x \in DOMAIN P.nodes |-> NormNode(P, P.nodes[x])]]
 
 (* --------------------------------------------------------------- unification *)
 (* mod.rs unify_inner: identical types; never with anything; integer literal *)
@@ -305,7 +371,12 @@ Chk(P, i, env, exp) ==
             LET a == ChkArgs(P, n.args, [x \in DOMAIN d.ps |-> d.ps[x].t], env, 1, FALSE) IN
             IF ~a.ok THEN Bad ELSE R(Unify(P, exp, ret), a.d)
     [] n.k = "ctor"  ->
-         IF n.en = "Option" THEN
+         (* bare Some(..) / None (en = ""): always the built-in Option; the path Option.Some / Option.None *)
+         (* means the built-in only when the script declares no type called Option                         *)
+         (* (a script item or local called Some / None would shadow the bare constructor in turn: no program *)
+         (* of this fragment has one; the judgement then does not decide - the permissive side)             *)
+         IF n.en = "" /\ (HasDecl(P, n.v) \/ IsLocal(env, n.v)) THEN R(Unify(P, exp, AnyT), FALSE)
+         ELSE IF n.en = "" \/ (n.en = "Option" /\ ~TyDeclared(P, "Option")) THEN
            IF n.v = "Some" THEN
              IF ~n.call \/ Len(n.args) # 1 THEN Bad ELSE
              LET a == Chk(P, n.args[1], env, AnyT) IN
@@ -558,12 +629,14 @@ DeclOk(P, d) ==
     [] OTHER -> FALSE
 
 (* all items of a module share one namespace (scope.rs insert_declaration) *)
-WellTyped(P) ==
+WellTypedR(P) ==
   /\ NoDup([x \in DOMAIN P.decls |-> P.decls[x].n])
   /\ \A x \in DOMAIN P.decls : P.decls[x].k \in {"record", "enum"} => DeclOk(P, P.decls[x])
   /\ NoTypeCycle(P)
   /\ \A x \in DOMAIN P.decls : P.decls[x].k \notin {"record", "enum"} => DeclOk(P, P.decls[x])
   /\ NoConstCycle(P)
+(* a program is judged after name resolution *)
+WellTyped(P) == WellTypedR(Norm(P))
 
 (* "" when P is well typed or breaks other rules too; otherwise the switchable *)
 (* rule(s) that alone make P ill typed                                         *)
